@@ -62,6 +62,8 @@ PROFILE_DENSE = gf.make_profile(
 CLASSIFIERS = {
     "array_write_first_other_element_read": R.cls_array_write_first,
     "scalar_first_written_under_condition": R.cls_conditional_write_first,
+    "loop_bound_reads_own_loop_variable":
+        R.cls_loop_bound_reads_loop_variable,
 }
 
 
